@@ -449,11 +449,10 @@ oscore_increment_sender_seq(oscore_ctx_t *ctx) {
 void
 oscore_roll_back_seq(oscore_recipient_ctx_t *ctx) {
 
+  /* a saved window always has bit 0 set, so it also tells whether last_seq was saved */
   if (ctx->rollback_sliding_window != 0) {
     ctx->sliding_window = ctx->rollback_sliding_window;
     ctx->rollback_sliding_window = 0;
-  }
-  if (ctx->rollback_last_seq != 0) {
     ctx->last_seq = ctx->rollback_last_seq;
     ctx->rollback_last_seq = 0;
   }
